@@ -288,6 +288,14 @@ func (vf *VerifyFunc) evalCallArgs(st *State, fr *Frame, cc *ssa.CallCommon) ([]
 // doCall performs a call. Returns (result, pushed): pushed means a callee frame was pushed for inlining.
 func (vf *VerifyFunc) doCall(st *State, fr *Frame, in ssa.Instruction, cc *ssa.CallCommon, args []*Val, fnv *Val) (*Val, bool) {
 	eng := vf.eng
+	if fnv != nil && fnv.Fn != nil && fnv.Fn.Key == "ctxcancel" && fnv.Fn.Self != nil {
+		// the cancel function of a context derived in this function: its context is done from now on
+		if g, ok := eng.cs.Ghosts["ctxDone"]; ok && g.Field {
+			k, as := "G:ctxDone", ghostFieldSort(g)
+			st.heapSet(k, as, store(st.heapGet(k, as), "(i_val "+fnv.Fn.Self.Tm+")", "true"))
+		}
+		return nil, false
+	}
 	key := eng.calleeKey(cc)
 	var static *ssa.Function
 	var bindings []*Val
